@@ -284,7 +284,10 @@ def _pure_boolean(e):
     if isinstance(e, ast.BoolOp):
         return all(_pure_boolean(v) for v in e.values)
     if isinstance(e, ast.UnaryOp) and isinstance(e.op, ast.Not):
-        return _pure_boolean(e.operand)
+        # (`not x` is a boolean whatever x is)
+        return _pure_boolean(e.operand) or (
+            _pure_operand(e.operand) and not isinstance(
+                e.operand, (ast.Tuple, ast.List)))
     if isinstance(e, ast.Compare):
         return all(_pure_operand(x) for x in [e.left] + e.comparators)
     if isinstance(e, ast.Call) and isinstance(e.func, ast.Name) and \
@@ -486,9 +489,7 @@ class Canon:
                 continue
             v = st.targets[0].id
             if v in u.banned or u.stores.get(v) != 1 or \
-                    u.loads.get(v, 0) < (1 if _pure_arith(st.value) or
-                                         isinstance(st.value, ast.Name)
-                                         else 2):
+                    u.loads.get(v, 0) < 1:
                 continue
             chain = st.value
             attrs = []
@@ -730,7 +731,8 @@ class Canon:
                     _rotatable(s.value) and not any(
                         isinstance(x, ast.Continue)
                         for b in nxt.body for x in ast.walk(b)) and \
-                    _count_loads(nxt.test, s.targets[0].id) >= 1:
+                    _count_loads(nxt.test, s.targets[0].id) >= 1 and \
+                    _count_loads(s.value, s.targets[0].id) == 0:
                 v_ = s.targets[0].id
                 later = stmts[i + 2:]
                 used_later = any(_count_loads(x, v_) for x in later)
